@@ -159,8 +159,17 @@ func getSpatialIdAttrs(spatialId string) (int, int, int, int, error) {
 	}
 	var errNumberConversion error
 	zoom, errNumberConversion := strconv.Atoi(spatialIdAttributes[0])
+	if errNumberConversion != nil {
+		return 0, 0, 0, 0, errors.NewSpatialIdError(errors.InputValueErrorCode, fmt.Sprintf("spatialId: %v", spatialId))
+	}
 	f, errNumberConversion := strconv.Atoi(spatialIdAttributes[1])
+	if errNumberConversion != nil {
+		return 0, 0, 0, 0, errors.NewSpatialIdError(errors.InputValueErrorCode, fmt.Sprintf("spatialId: %v", spatialId))
+	}
 	x, errNumberConversion := strconv.Atoi(spatialIdAttributes[2])
+	if errNumberConversion != nil {
+		return 0, 0, 0, 0, errors.NewSpatialIdError(errors.InputValueErrorCode, fmt.Sprintf("spatialId: %v", spatialId))
+	}
 	y, errNumberConversion := strconv.Atoi(spatialIdAttributes[3])
 	// 不正形式(数値)
 	if errNumberConversion != nil {
